@@ -49,6 +49,8 @@ struct Scn {
     x_sys: Option<u32>,
     x_user: Option<u32>,
     words: Vec<(usize, String, u32)>,
+    /// the estimator's clock at start-up: a young profile, or one whose entries were last used long ago
+    clock: u64,
 }
 
 fn key_of(s: &Scn) -> Vec<Syllable> {
@@ -71,7 +73,7 @@ fn build(s: &Scn, user_path: &Path, learning: bool) -> Editor {
     let usr = TrieBuf::open(user_path.to_path_buf()).expect("open user dictionary");
     let dict = Layered::new(vec![Box::new(sys)], Box::new(usr));
     let sym = SymbolSelector::new(std::io::Cursor::new(String::new())).unwrap();
-    let mut ed = Editor::new(Box::new(ChewingEngine::new()), dict, LaxUserFreqEstimate::new(0), AbbrevTable::new(), sym);
+    let mut ed = Editor::new(Box::new(ChewingEngine::new()), dict, LaxUserFreqEstimate::new(s.clock), AbbrevTable::new(), sym);
     let mut o: EditorOptions = ed.editor_options();
     o.disable_auto_learn_phrase = !learning;
     o.auto_shift_cursor = false;
@@ -112,7 +114,8 @@ struct Out {
 
 fn describe(s: &Scn) -> String {
     format!(
-        "key={} X={} x_sys={:?} x_user={:?} others={:?} words={:?}",
+        "clock={} key={} X={} x_sys={:?} x_user={:?} others={:?} words={:?}",
+        s.clock,
         s.key_idx.iter().map(|i| READ[*i].1).collect::<Vec<_>>().join(" "),
         s.x,
         s.x_sys,
@@ -164,7 +167,8 @@ fn scenario(rng: &mut Rng, n: usize, dir: &Path, out: &mut Out, reps: usize) {
     if len == 1 {
         words.retain(|(_, t, _)| *t != x && !others.iter().any(|(o, _)| o == t));
     }
-    let s = Scn { key_idx, x, others, x_sys, x_user, words };
+    let clock = *rng.pick(&[0u64, 0, 17, 4_500, 60_000, 1_000_000]);
+    let s = Scn { key_idx, x, others, x_sys, x_user, words, clock };
     let desc = describe(&s);
     out.scenarios += 1;
     out.by_len[len] += 1;
